@@ -64,7 +64,13 @@ Denotes(role, s) ==
   ELSE [t |-> "none"]
 
 MustAccept(role, s) == LET v == Denotes(role, s) IN v.t = "ap" /\ PortAllowed(role, v.port)
-MustReject(role, s) == \/ (Denotes(role, s).t = "ap" /\ ~PortAllowed(role, Denotes(role, s).port))
+\* a strict dotted quad followed by a plain decimal number that is no port at all (beyond 65535)
+OverflowPort(s) ==
+  LET cs == Positions(s, Colon) IN
+  \E c \in cs : /\ cs = {c} /\ IsQuad(Piece(s, 1, c - 1))
+                /\ LET pt == Piece(s, c + 1, Len(s)) IN AllDigitsCP(pt) /\ NoLeadingZero(pt) /\ (Len(pt) > 5 \/ NumVal(pt) > 65535)
+MustReject(role, s) == \/ OverflowPort(s)
+                       \/ (Denotes(role, s).t = "ap" /\ ~PortAllowed(role, Denotes(role, s).port))
                        \/ (IsQuad(s) /\ role = "listen")                 \* the port is mandatory for listen
                        \/ ~ContainsQuadPattern(s)
 ===========================================================================
